@@ -302,4 +302,35 @@ def step (g : GState) (a : Action) : Except GErr GState :=
 
 
 
+/-! ### check and pin sets (C05) -/
+def isColor (bd : Sq → Option Piece) (c : Color) (s : Sq) : Bool :=
+  match bd s with | some q => q.c == c | none => false
+
+/-- enemy men attacking the king of the side to move -/
+def checkers (p : Pos) : List Sq :=
+  match kingSq? p.board p.stm with
+  | some k => allSq.filter fun a => isColor p.board p.stm.other a && attacks p.board a k
+  | none => []
+
+/-- the enemy man on `a` is a rook, bishop or queen whose line of movement passes through `k` -/
+def sliderLine (bd : Sq → Option Piece) (a k : Sq) : Bool :=
+  match bd a with
+  | some q => (match q.pt with
+      | .rook => orthogonal a k | .bishop => diagonal a k | .queen => orthogonal a k || diagonal a k | _ => false)
+  | none => false
+
+/-- own men standing alone between their king and an enemy rook, bishop or queen attacking along that line -/
+def pinnedSet (p : Pos) : List Sq :=
+  match kingSq? p.board p.stm with
+  | some k => allSq.filter fun s =>
+      isColor p.board p.stm s &&
+      allSq.any fun a =>
+        isColor p.board p.stm.other a && sliderLine p.board a k && strictlyBetween a s k &&
+        allSq.all fun c => !strictlyBetween a c k || c == s || (p.board c).isNone
+  | none => []
+
+/-! ### flags of a move (C13) -/
+def givesCheck (p : Pos) (m : Move) : Bool := let q := apply p m; inCheck q.board q.stm
+def givesMate (p : Pos) (m : Move) : Bool := let q := apply p m; inCheck q.board q.stm && (legalMoves q).isEmpty
+
 end Chess.Spec
